@@ -58,7 +58,7 @@ ASSUMPTIONS = [
 ]
 BOUNDS = {
     "quick": {"sequence_length": 2, "sources": ["code", "sdl"], "visibility_predicates": "every single type / field / input field / directive + 4 pairs"},
-    "thorough": {"sequence_length": 3, "sources": ["code", "sdl"], "visibility_predicates": "every single type / field / input field / directive + 4 pairs"},
+    "thorough": {"sequence_length": 3, "sources": ["code", "sdl"], "visibility_predicates": "every single type / field / input field / directive + 4 pairs + every pair of types"},
 }
 TIME_CAP = {"quick": 150, "thorough": 1500}
 
